@@ -1021,6 +1021,11 @@ def own_compose(ctx: Ctx) -> RuleResult:
             return False
         if isinstance(e, ast.Call) and isinstance(e.func, ast.Name):
             g = ctx.P.nested(f, e.func.id)
+            if g is None:
+                # the copying helper may be a plain function of the same module instead of a closure
+                cands = [h for h in ctx.P.funcs.values() if h.module is f.module and h.cls is None and h.parent is None
+                         and h.name == e.func.id]
+                g = cands[0] if len(cands) == 1 else None
             if g is not None and len(g.node.args.args) >= 1:
                 p0 = g.node.args.args[0].arg
                 rets = [x for x in iter_own_nodes(g.node) if isinstance(x, ast.Return) and x.value is not None]
